@@ -1,5 +1,5 @@
 (** C05 — any alteration of the encrypted stream is detected. *)
-From HC Require Import Base.HBytes Base.ChaChaPoly Base.ChaChaPolyProofs Gen.Extracted Model.Framing Model.ConnRead Proofs.FramingProofs Proofs.ConnReadProofs Proofs.ConnAdvProofs.
+From HC Require Import Base.HBytes Base.ChaChaPoly Base.ChaChaPolyProofs Gen.Extracted Model.Framing Model.ConnRead Proofs.FramingProofs Proofs.ConnReadProofs Proofs.ConnAdvProofs Model.Pipeline Proofs.PipelineProofs.
 
 (** For ANY AEAD with open(seal p) = p, any key, any start counter, any plaintext chunks [ps]
     the peer sealed, and ANY byte string [r] arriving instead of the peer's stream (bit flips,
@@ -100,3 +100,26 @@ Theorem C05_refuted_pinned_connection :
   fst (fst (run_reads true cc_open key (init_conn 0) [16; 16; 16; 16]%nat [SockData bad])) =
     [RData [1; 2; 3]; RErr 2; RErr 3; RErr 3].
 Proof. exact pinned_conn_delivers_after_failure. Qed.
+
+(** Where the encrypted stream BEGINS: requests that wait in the HTTP layer's buffer while the
+    connection switches to the secure session (Model/Pipeline.v).  Served by the origin of their
+    bytes, only what the peer sealed is released, whatever arrives and however it is cut into
+    requests. *)
+Theorem C05_only_sealed_requests_served : forall evs,
+  Forall (fun r => all_sealed r = true) (p_served (prun true evs)).
+Proof. exact by_origin_only_sealed. Qed.
+Print Assumptions C05_only_sealed_requests_served.
+
+(** /repo serves by the state of the session at the moment a request is handled.  That is the same
+    as long as no pair-verify finish is handled while plaintext waits behind it ... *)
+Theorem C05_served_by_session_state_without_leftover : forall evs,
+  p_leftover (prun false evs) = false -> Forall (fun r => all_sealed r = true) (p_served (prun false evs)).
+Proof. exact by_state_without_leftover. Qed.
+Print Assumptions C05_served_by_session_state_without_leftover.
+
+(** ... and refuted otherwise (the recorded finding C05:plaintext-behind-verify-finish): the finish
+    and a protected request arrive in one read, the finish is handled, one more byte arrives, the
+    buffered request — no byte of it sealed — is served. *)
+Theorem C05_refuted_request_buffered_before_the_switch :
+  p_served (prun false injected) = [[Plain]] /\ p_served (prun true injected) = [].
+Proof. exact by_state_refuted. Qed.
